@@ -575,8 +575,135 @@ pub fn c04_after(ck: &mut Checker, sim: &mut Sim, session: usize, _p: Proto, _d:
 }
 
 pub fn c07_on_boot(_ck: &mut Checker, _sim: &mut Sim) {}
-pub fn c07_before(_ck: &mut Checker, _sim: &mut Sim, _s: usize, _p: Proto, _d: &Bytes, _t: &Tag) {}
-pub fn c07_check(_ck: &mut Checker, _sim: &mut Sim) {}
+
+/// Records what each session delivered (the world knows what it sent).
+pub fn c07_before(ck: &mut Checker, sim: &mut Sim, session: usize, _p: Proto, data: &Bytes, t: &Tag) {
+    if t.kind != Kind::BlockFilterCheckPoints {
+        return;
+    }
+    if let Ok(m) = packed::BlockFilterMessageReader::from_slice(data) {
+        if let packed::BlockFilterMessageUnionReader::BlockFilterCheckPoints(r) = m.to_enum() {
+            let interval = sim.plan.knobs.check_point_interval.max(1);
+            let start: u64 = r.start_number().unpack();
+            if start % interval != 0 {
+                return;
+            }
+            let base = (start / interval) as u32;
+            let e = ck.c07.delivered.entry(session).or_default();
+            for (i, h) in r.block_filter_hashes().iter().enumerate() {
+                // the first answer for an index counts (later contradicting ones are rejected)
+                e.entry(base + i as u32).or_insert_with(|| h.as_slice().to_vec());
+            }
+            if !t.honest {
+                sim.stat("probe.c07.deviating_vector_delivered");
+            }
+        }
+    }
+}
+
+pub fn c07_check(ck: &mut Checker, sim: &mut Sim) {
+    let c = match sim.client.as_ref() {
+        Some(c) => c,
+        None => return,
+    };
+    let max = c.storage.get_max_check_point_index();
+    let values: Vec<Vec<u8>> = c
+        .storage
+        .get_check_points(0, max as usize + 1)
+        .into_iter()
+        .map(|h| h.as_slice().to_vec())
+        .collect();
+    let mut findings: Vec<(&str, String)> = Vec::new();
+    let mut finalized_now = false;
+    let prev = ck.c07.prev_max;
+    if let Some(pm) = prev {
+        if max < pm {
+            findings.push(("final_index_decreased", format!("{} -> {}", pm, max)));
+        }
+        for i in 0..=(pm.min(max) as usize) {
+            if ck.c07.finals.get(i) != values.get(i) {
+                findings.push((
+                    "final_check_point_rewritten",
+                    format!("check point {} changed after it was final", i),
+                ));
+                break;
+            }
+        }
+        if max > pm {
+            finalized_now = true;
+            let quorum = ((sim.plan.knobs.max_outbound + 1) / 2) as usize;
+            // currently proven sessions and what they delivered
+            let proven: Vec<usize> = sim
+                .sessions
+                .keys()
+                .cloned()
+                .filter(|s| {
+                    c.peers
+                        .get_state(&PeerIndex::new(*s))
+                        .map(|st| st.get_prove_state().is_some())
+                        .unwrap_or(false)
+                })
+                .collect();
+            let interval = sim.plan.knobs.check_point_interval;
+            let (_, tip) = c.storage.get_last_state();
+            let path = crate::refidx::canonical_path(&sim.world, &tip.calc_header_hash());
+            let deviating_connected = sim
+                .sessions
+                .values()
+                .filter(|p| sim.plan.peers[**p].lie_salt != 0)
+                .count();
+            for i in (pm + 1)..=max {
+                let agree = proven
+                    .iter()
+                    .filter(|s| {
+                        ck.c07
+                            .delivered
+                            .get(s)
+                            .map(|d| {
+                                ((pm + 1)..=i).all(|j| d.get(&j) == values.get(j as usize))
+                            })
+                            .unwrap_or(false)
+                    })
+                    .count();
+                if agree < quorum {
+                    findings.push((
+                        "finalized_without_quorum_agreement",
+                        format!(
+                            "check point {} became final (previous final {}), but only {} currently proven peers delivered exactly the finalized values for ({}, {}]; quorum is {}",
+                            i, pm, agree, pm, i, quorum
+                        ),
+                    ));
+                    break;
+                }
+                if deviating_connected < quorum {
+                    if let Some(path) = path.as_ref() {
+                        let n = (i as u64) * interval;
+                        if let Some(id) = path.get(n as usize) {
+                            if sim.world.blocks[*id].filter_hash.as_slice() != values[i as usize].as_slice() {
+                                findings.push((
+                                    "wrong_value_finalized_without_a_deviating_quorum",
+                                    format!(
+                                        "check point {} (block #{}) is final with a value that is not the block's filter hash; {} deviating peers connected, quorum {}",
+                                        i, n, deviating_connected, quorum
+                                    ),
+                                ));
+                                break;
+                            }
+                        }
+                    }
+                }
+            }
+        }
+    }
+    ck.c07.prev_max = Some(max);
+    ck.c07.finals = values;
+    if finalized_now {
+        sim.stat("probe.c07.finalized");
+    }
+    for (clause, detail) in findings {
+        sim.violate("C07", clause, detail);
+    }
+}
 pub fn c07_on_ban(_ck: &mut Checker, _sim: &mut Sim, _s: usize, _r: &str) {}
 pub fn c07_at_end(_ck: &mut Checker, _sim: &mut Sim) {}
 
